@@ -301,7 +301,21 @@ def check_threads(prop, tier, seed):
     reps = 3 if tier == "quick" else 20
     traces = replay(cases, events, wd, 2, extra=["--examples", "--threads", "8", "--reps", str(reps)], sub="threads")
     log(f"[{prop}] replayed ({time.time()-t0:.0f}s)")
-    agg = aggregate(validate(traces, wd))
+    # function level: the stdlib call matrix, each call alone vs after the other calls of its function on one thread
+    import engine_c
+    jobs, nfn, cst, ctr = engine_c.call_matrix(wd, tier, seed)
+    byf = {}
+    for j in jobs:
+        byf.setdefault(j["f"], []).append(j)
+    hjobs = [{"worker": "history", "f": f, "calls": cs, "args": [], "ret": [], "src": f} for f, cs in sorted(byf.items())]
+    hpath = os.path.join(wd, "history.ndjson")
+    with open(hpath, "w") as fh:
+        for c in hjobs:
+            fh.write(json.dumps(c) + "\n")
+    run([VH, "calls", "--cases", hpath, "--out", os.path.join(wd, "hist"), "--shards", str(NCPU), "--deadline-ms", "240000"], cwd=wd, timeout=7200)
+    htraces = [os.path.join(wd, f"hist.{i}.ndjson") for i in range(NCPU)]
+    log(f"[{prop}] call histories done ({time.time()-t0:.0f}s)")
+    agg = aggregate(validate(traces + htraces, wd))
     cnt = agg["cnt"]
     dump_findings_simple(agg, wd)
     conc = 0
@@ -331,7 +345,10 @@ def check_threads(prop, tier, seed):
                 "Conformance: every program (TLC-generated from the C08/C09/C13 grammars + every stdlib example without "
                 "nondeterministic calls) is compiled twice, run on fresh runtimes, on one runtime cleared between events "
                 "in two orders, and by 8 threads sharing the Program (rotated event orders, seeded yields); a program is "
-                "one non-trivial case; real OS schedules are sampled, not enumerated",
+                "one non-trivial case; real OS schedules are sampled, not enumerated. Function level: every call tuple of the stdlib "
+                "matrix (GenCalls.tla) is evaluated alone on a fresh thread and again after all other calls of its function on one thread, "
+                "forwards and backwards (cnt.C14 counts those calls)",
+        "stdlib_calls_checked_for_history_independence": cnt.get("C14", 0),
         "model_states": mst, "programs": nprog, "concurrent_runs": conc, "repetitions_per_thread": reps,
         "exhaustive": False,
     }
